@@ -190,6 +190,12 @@ impl LsmVerifier {
                 let setsum = Setsum::from_hexdigest(added)
                     .ok_or_else(|| corruption(format!("manifest added has bad digest: {added}")))?;
                 computed_discard -= setsum;
+                // NOTE:  The balance checked below is over the digests the manifest records.  It
+                // only covers the data if every table holds what its digest says, so each table
+                // is read once, in the transaction that adds it.
+                if !first {
+                    self.verify_contents(setsum)?;
+                }
             }
             for rmed in edit.rmed() {
                 let setsum = Setsum::from_hexdigest(rmed)
@@ -322,6 +328,24 @@ impl LsmVerifier {
                     "computed_discard^-1",
                     (Setsum::default() - computed_discard).hexdigest(),
                 ));
+        }
+        Ok(())
+    }
+
+    fn verify_contents(&self, setsum: Setsum) -> Result<(), SError> {
+        let mut cursor = self.get_cursor(setsum)?;
+        cursor.seek_to_first()?;
+        cursor.next()?;
+        let mut computed = sst::Setsum::default();
+        while let Some(kvr) = cursor.key_value() {
+            computed.insert(kvr);
+            cursor.next()?;
+        }
+        let computed = computed.into_inner();
+        if computed != setsum {
+            return Err(corruption("table contents do not match the table's setsum")
+                .with_debug_field("setsum", setsum.hexdigest())
+                .with_debug_field("computed", computed.hexdigest()));
         }
         Ok(())
     }
